@@ -22,6 +22,7 @@ from pynguin.generator import ReturnCode, run_pynguin, set_configuration
 from pynguin.utils.logging_utils import (
     WorkerFormatting,
 )
+from pynguin.utils.verif_hooks import crash_point
 
 if TYPE_CHECKING:
     import pynguin.configuration as config
@@ -98,6 +99,7 @@ def worker_main(
 
             # Execute the task
             set_configuration(task.configuration)
+            crash_point("worker_start")
             return_code = run_pynguin()
             result = WorkerResult(
                 task_id=task.task_id,
